@@ -5,6 +5,7 @@ import sys
 import shutil
 import tempfile
 import contextlib
+import json
 
 from vmon import env, gen
 
@@ -188,3 +189,37 @@ def build_repo_input(name, workdir, max_steps=None, **kw):
         raise TooManySteps('too_many_steps', [('HARNESS', '%d planes'
                                                % len(r.z))])
     return inp, r
+
+
+def run_repo_tests(monitors, timeout=2400, select=None):
+    """Run the repository's own test-suite in a scratch copy of the source
+    tree with the pytest plugin vmon.pytest_monitors loaded; returns
+    {monitor-set name: Result dict} and the pytest summary line."""
+    import subprocess
+    with scratch('vmon_tests_') as base:
+        copy = os.path.join(base, 'repo')
+        shutil.copytree(env.SRC, copy, symlinks=True,
+                        ignore=shutil.ignore_patterns('.git', '__pycache__',
+                                                      '*.egg-info'))
+        out = os.path.join(base, 'monitors.json')
+        e = dict(os.environ)
+        e['PYTHONPATH'] = os.pathsep.join(
+            [copy, os.path.dirname(os.path.dirname(os.path.abspath(
+                __file__)))])
+        e['VERIF_DASSH_SRC'] = copy
+        e['VMON_MONITORS'] = ','.join(monitors)
+        e['VMON_MONITORS_OUT'] = out
+        e.pop('DASSH_VERIF', None)
+        cmd = [sys.executable, '-m', 'pytest', '-q', '-p',
+               'no:cacheprovider', '-p', 'vmon.pytest_monitors',
+               '--timeout=900', '--continue-on-collection-errors']
+        if select:
+            cmd += list(select)
+        p = subprocess.run(cmd, cwd=copy, env=e, stdout=subprocess.PIPE,
+                           stderr=subprocess.STDOUT, timeout=timeout)
+        tail = p.stdout.decode(errors='replace').strip().splitlines()[-1:]
+        res = {}
+        if os.path.exists(out):
+            with open(out) as f:
+                res = json.load(f)
+        return res, (tail[0] if tail else '')
